@@ -3,6 +3,7 @@ From Coq Require Import QArith Lia.
 From Zeno Require Import Base Sort Expr ExprSpec ExprP Seq Store StoreExprP DB.
 From Zeno Require Pin PinP PinSrc Facts TiePin.
 From Zeno Require Tree TreeP.
+From Zeno Require TieTree.
 Local Open Scope Z_scope.
 
 (* two histories with the same inserts in the same order, split between memory and disk by ANY flushes
@@ -73,6 +74,20 @@ Theorem C03_tree_remove : forall (D:Type) ctx key (t:Tree.tree D), TreeP.wf_tree
   /\ o = (if Tree.tremoved ctx key t then None else Tree.tfind key t).
 Proof. exact TreeP.tremove_spec. Qed.
 
+(* fileStore.iterate over a file and the memstore tree (Remove every key read from the file, then Walk what is left,
+   all in one fresh context): every key of the file is merged with exactly the memstore's data for it, and the Walk
+   reports exactly the memstore's other keys, each once — whatever the keys and the shape of the tree *)
+Theorem C03_tree_iterate_each_key_once : forall (D:Type) ctx (file_keys:list (list Z)) (t:Tree.tree D),
+  ctx <> 0 -> TreeP.wf_tree t -> TreeP.unmarked ctx t -> NoDup file_keys ->
+  let '(os, vs) := Tree.iterate_keys ctx file_keys t in
+  os = map (fun k => (k, Tree.tfind k t)) file_keys
+  /\ NoDup (map fst vs)
+  /\ (forall k d, In (k, d) vs <-> (Tree.tfind k t = Some d /\ ~ In k file_keys)).
+Proof. exact TreeP.iterate_each_key_once. Qed.
+(* the structure of bytetree.go these theorems speak about is the one in /repo on this run *)
+Theorem C03_tree_source_as_modelled : TieTree.tree_source_as_modelled.
+Proof. exact TieTree.tree_source_as_modelled_holds. Qed.
+
 Print Assumptions C03_schedule_independent.
 Print Assumptions C03_disk_equals_mem_after_flush.
 Print Assumptions C03_split_anywhere.
@@ -81,3 +96,5 @@ Print Assumptions C03_scans_unaffected_by_flushes_and_file_removal.
 Print Assumptions C03_separate_registration_refuted.
 Print Assumptions C03_remover_sees_scan_registrations.
 Print Assumptions C03_tree_remove.
+Print Assumptions C03_tree_iterate_each_key_once.
+Print Assumptions C03_tree_source_as_modelled.
